@@ -22,13 +22,17 @@ callback):
   `refine_step_partial`, `refine_step_partial_of_Inv`, `refine_seq_partial`,
   `cursor_correct_partial`; `new_inv`, `inv_implies_global`, `endsOK_of_inv`
 * `install_refines`   `new_from_ops` on a strictly increasing op list builds the canonical container
+* `refine_step` also covers `sweepArgs` (args = `get_empty_args(All | Varlist | Args)` +
+                  NON-hint `fill_args_at_p` + `mutate_subsection(…, Some(args))`) and `sweepOpsArgsAll`;
+                  `sub_cursor_correct`, `varlist_unfilled`, `mutate_p_sub_refines` (Varlist cursors),
+                  `by_var_eq_scan` (`get_previous/next_p_for_var`), `nav_round_trip`, `nav_round_trip_back`
 * `nth_eq_scan`       `get_nth_p(k)` is the `k % n`-th occupied slot
-NOT proved (correspondence only, see design_notes/C11.md): sub-variable sweeps (`Varlist`
-cursors, heap order), `fill_args_at_p_with_hint`.
+NOT proved (correspondence + oracle only, see design_notes/C11.md): the heap branch of
+`mutate_subsection_ops` under a `Varlist` cursor, `fill_args_at_p_with_hint` (scan specification).
 EXCLUDED by `WF` (documented witnesses below): ops with a repeated variable, ops without
 variables.
 -/
-import QmcProofs.FastOpsNth
+import QmcProofs.FastOpsSubFull
 
 namespace Qmc.C11
 open Qmc Qmc.FastOps
@@ -214,6 +218,8 @@ theorem refine_step_partial {τ : Type} (nv : Nat) (nb : Option Nat) (c : FastOp
   | setCutoff k =>
     obtain ⟨h1, h2⟩ := grow_global h k
     exact ⟨h1, h2⟩
+  | sweepArgs src via ps pe f t => exact absurd hobs (by simp [Mut.GlobalObs])
+  | sweepOpsArgsAll via ps pe f t => exact absurd hobs (by simp [Mut.GlobalObs])
 
 /-- starting from a fully consistent container, one valid mutation yields a container whose
 global bookkeeping is consistent and whose contents are the naive result -/
@@ -291,6 +297,36 @@ theorem refine_step_canon {τ : Type} (nv : Nat) (nb : Option Nat) (s : Slots) (
     exact ⟨h1, h2⟩
   | setCutoff k =>
     exact ⟨grow_canon nv nb s k, WF_growA nv nb s k hwf⟩
+  | sweepArgs src via ps pe f t =>
+    cases src with
+    | all =>
+      obtain ⟨hle, _, hf⟩ := hm
+      rw [getNvars_canon, nbonds_canon] at hf
+      exact sweepArgsAll_canon nv nb s via ps pe t f hwf hle hf
+    | varlist vs =>
+      obtain ⟨hle, _, hn, hlt, hdom, hf⟩ := hm
+      rw [getNvars_canon, nbonds_canon] at hf
+      rw [getNvars_canon] at hlt
+      refine sweepArgsVarlist_canon nv nb s vs via ps pe t f hwf hle hn hlt ?_ hf
+      cases hdom with
+      | inl h =>
+        left
+        obtain ⟨v, hv, hops⟩ := h
+        refine ⟨v, hv, ?_⟩
+        obtain ⟨q, op, hq, hmem⟩ := (doesVarHaveOps_canon nv nb s v (hlt v hv)).mp hops
+        exact hasOpsV_of_occV (occV_of_mem hq hmem)
+      | inr h =>
+        right
+        rw [prevOcc_none_iff]
+        intro k hk
+        have := h k hk
+        rw [← slotAt_abs, abs_canon] at this
+        exact occ_false_of_slotAt this
+  | sweepOpsArgsAll via ps pe f t =>
+    obtain ⟨hle, hlt, hf⟩ := hm
+    rw [getNvars_canon, nbonds_canon] at hf
+    rw [length_canon] at hlt
+    exact sweepOpsArgsAll_canon nv nb s via ps pe t f hwf hle hlt hf
 
 /-- `refine_step`: a valid mutation preserves the invariant and commutes with the abstraction -/
 theorem refine_step {τ : Type} (c : FastOps) (m : Mut τ) (h : Inv c) (hm : m.Valid c) :
@@ -387,6 +423,96 @@ theorem nth_eq_scan (c : FastOps) (h : Inv c) (hn : 0 < c.n) (k : Nat) :
   rw [← hcn, ← hc] at this
   exact this
 
+/-- `fill_args_at_p(p, get_empty_args(Varlist(vars)))` — the NON-hint fill of a sub-variable
+cursor — on a consistent container: `last_p` is the last occupied slot below `p`, subvar `i` ↔
+`vars[i]`, and `last_vars[i]`/`last_rels[i]` are the last op below `p` containing `vars[i]` with its
+relative index.  `unfilled` (number of LISTED variables with ops) lets the walk stop early without
+losing an entry.  Hypothesis `hdom` is the documented boundary of this API combination. -/
+theorem sub_cursor_correct (nv : Nat) (nb : Option Nat) (s : Slots) (vars : List Nat) (via : Bool) (p : Nat)
+    (hwf : WF nv nb s) (hn : vars.Nodup) (hlt : ∀ v, v ∈ vars → v < nv)
+    (hdom : (∃ v, v ∈ vars ∧ hasOpsV s v = true) ∨ prevOcc (occAt s) p = none) :
+    SubCur ((canon nv nb s).fillArgsAtP p ((canon nv nb s).emptyArgsOf (.varlist vars) via)) vars s p := by
+  rw [emptyArgsOf_varlist]
+  obtain ⟨h0, hlp0, hu0⟩ := emptyArgsVarlist_WGS nv nb vars hn hlt s p
+  apply fillArgsAtP_sub nv nb vars hn s p hwf _ h0 hlp0
+  intro hu
+  cases hdom with
+  | inr h => exact h
+  | inl h =>
+    exfalso
+    obtain ⟨v, hv, hops⟩ := h
+    rw [hu0] at hu
+    have : v ∈ vars.filter (hasOpsV s) := by rw [List.mem_filter]; exact ⟨hv, hops⟩
+    rw [List.length_eq_zero_iff] at hu
+    rw [hu] at this; cases this
+
+/-- the counter `get_empty_args(Varlist(vars))` starts from: the number of LISTED variables that
+have an op (not of subset positions) -/
+theorem varlist_unfilled (nv : Nat) (nb : Option Nat) (s : Slots) (vars : List Nat)
+    (hn : vars.Nodup) (hlt : ∀ v, v ∈ vars → v < nv) :
+    ((canon nv nb s).getEmptyArgsVarlist vars).unfilled = (vars.filter (hasOpsV s)).length :=
+  (emptyArgsVarlist_WGS nv nb vars hn hlt s 0).2.2
+
+/-- one `mutate_p` with a sub-variable cursor: same container result as with the full cursor,
+cursor advanced, provided the change stays inside the listed variables -/
+theorem mutate_p_sub_refines (nv : Nat) (nb : Option Nat) (vars : List Nat) (hn : vars.Nodup)
+    (hlt : ∀ v, v ∈ vars → v < nv) (s : Slots) (p : Nat) (new : Option (Option Op)) (a : Cursor)
+    (hpL : p < s.length) (hwf : WF nv nb s) (hnew : SubActOK nv nb vars (slotAt s p) new)
+    (ha : SubCur a vars s p) :
+    (mutatePWith (canon nv nb s) p new a).1 = canon nv nb (writeA s p new) ∧
+    SubCur (mutatePWith (canon nv nb s) p new a).2 vars (writeA s p new) (p + 1) ∧
+    WF nv nb (writeA s p new) :=
+  mutatePWith_sub nv nb vars hn hlt s p new a hpL hwf hnew ha
+
+/-- the BY-VARIABLE accessors `get_previous_p_for_var` / `get_next_p_for_var` (default methods of
+`LoopUpdater`): `Err` exactly when the variable is not on the node, otherwise the previous / next
+op containing that variable with its relative index, by direct scan -/
+theorem by_var_eq_scan (c : FastOps) (h : Inv c) (p : Nat) (nd : Node) (hnd : c.getNode p = some nd)
+    (v : Nat) :
+    getPreviousPForVar v nd = (if v ∈ nd.op.vars then some (prevRel c.abs v p) else none) ∧
+    getNextPForVar v nd = (if v ∈ nd.op.vars then some (nextRel c.abs v p) else none) := by
+  have g := (getters_eq_scan c h).2.2.2.2.2.2.2 p nd hnd
+  unfold getPreviousPForVar getNextPForVar Op.indexOfVar
+  by_cases hv : v ∈ nd.op.vars
+  · have hlt := List.idxOf_lt_length_of_mem hv
+    have hk : nd.op.vars[nd.op.vars.idxOf v]? = some v := by
+      rw [List.getElem?_eq_getElem hlt, List.getElem_idxOf hlt]
+    obtain ⟨h1, h2⟩ := g.2.2 _ v hk
+    simp [hv, hlt, h1, h2]
+  · have : ¬ nd.op.vars.idxOf v < nd.op.vars.length := by
+      rw [List.idxOf_lt_length_iff]; exact hv
+    simp [hv, this]
+
+/-- forward/backward agreement of the per-variable navigation (a fact about the scans, hence by
+`by_var_eq_scan` about the container): the predecessor of the successor is the node itself -/
+theorem nav_round_trip (s : Slots) (v p : Nat) (x : PRel) (hp : occVAt s v p = true)
+    (hx : nextRel s v p = some x) : prevRel s v x.p = some (relAt s v p) := by
+  unfold nextRel at hx
+  unfold prevRel
+  cases hn : nextOcc (occVAt s v) s.length p with
+  | none => rw [hn] at hx; cases hx
+  | some q =>
+    rw [hn] at hx
+    simp only [Option.map_some, Option.some.injEq] at hx
+    subst hx
+    obtain ⟨_, hqL, hq⟩ := nextOcc_gt hn
+    have : prevOcc (occVAt s v) q = some p := (prev_next_adj hp hq hqL).mpr hn
+    simp [relAt, this]
+
+theorem nav_round_trip_back (s : Slots) (v p : Nat) (x : PRel) (hp : occVAt s v p = true)
+    (hx : prevRel s v p = some x) : nextRel s v x.p = some (relAt s v p) := by
+  unfold prevRel at hx
+  unfold nextRel
+  cases hn : prevOcc (occVAt s v) p with
+  | none => rw [hn] at hx; cases hx
+  | some q =>
+    rw [hn] at hx
+    simp only [Option.map_some, Option.some.injEq] at hx
+    subst hx
+    obtain ⟨_, hq⟩ := prevOcc_lt hn
+    have : nextOcc (occVAt s v) s.length q = some p := (prev_next_adj hq hp (occV_lt hp)).mp hn
+    simp [relAt, this]
+
 /-! ## non-vacuity and excluded points -/
 
 def opA : Op := Op.diagonal [0, 1] 1 [false, false] false
@@ -415,6 +541,21 @@ example : (Mut.setSlot 2 (some opA) : Mut Nat).Valid (applyC (FastOps.new 3 (som
   intro op h
   cases h
   exact ⟨by decide, by decide, by decide, by intro k hk; cases hk; decide⟩
+
+/-- a sub-variable mutation inside the valid domain, the situation of seed C11-10: 4 variables, ops
+only on 2 and 3, `Varlist [3,2]` (not the leading variables), NON-hint fill at `pstart = 2 > 0`,
+then an insertion on variable 3 -/
+def subDemo : FastOps :=
+  let c0 := applyC (FastOps.new 4 none) (.setCutoff 6 : Mut Nat)
+  let c1 := applyC c0 (.setSlot 1 (some (Op.diagonal [2, 3] 0 [false, false] false)) : Mut Nat)
+  applyC c1 (.sweepArgs (.varlist [3, 2]) false 2 4
+    (fun _ _ i => (([some (some (Op.diagonal [3] 1 [true] false)), none] : List _).getD i none, i + 1)) 0 : Mut Nat)
+
+example : subDemo = canon 4 none subDemo.abs := by decide
+example : subDemo.pEnds = some (1, 2) ∧ subDemo.n = 2 := by decide
+example : ((applyC (applyC (FastOps.new 4 none) (.setCutoff 6 : Mut Nat))
+    (.setSlot 1 (some (Op.diagonal [2, 3] 0 [false, false] false)) : Mut Nat)).getEmptyArgsVarlist [3, 2]).unfilled = 2 := by
+  decide
 
 /-- EXCLUDED POINT 1 (ops without variables): the early exit of `fill_args_at_p` leaves
 `last_p = None` although slot 0 is occupied; the next insertion corrupts the global chain.
